@@ -934,9 +934,14 @@ where
         if is_deferred(node) {
             deferred.insert(ix as u16);
         }
-        if deferred.contains(&(ix as u16)) {
-            for child in predicate.node_edges(ix).expect("Already checked") {
-                deferred.insert(*child);
+    }
+    // Every descendant of a deferred node is deferred too, whatever the node numbering.
+    let mut pending: Vec<u16> = deferred.iter().copied().collect();
+    while let Some(ix) = pending.pop() {
+        // Edges may point past the last node; such targets have no edges of their own.
+        for child in predicate.node_edges(ix as usize).into_iter().flatten() {
+            if deferred.insert(*child) {
+                pending.push(*child);
             }
         }
     }
